@@ -16,6 +16,11 @@ import (
 // VerifNewAnnounce builds an announcer that knows the given local interfaces
 // and has no responders and no background goroutines.
 func VerifNewAnnounce(ifaces []string) *Announce {
+	return VerifNewAnnounceN(ifaces, 1<<16)
+}
+
+// VerifNewAnnounceN: as VerifNewAnnounce with a queue of n unsolicited announcements (production: 1024).
+func VerifNewAnnounceN(ifaces []string, n int) *Announce {
 	return &Announce{
 		logger:         log.NewNopLogger(),
 		nodeInterfaces: append([]string{}, ifaces...),
@@ -23,7 +28,7 @@ func VerifNewAnnounce(ifaces []string) *Announce {
 		ndps:           map[int]*ndpResponder{},
 		ips:            map[string][]IPAdvertisement{},
 		ipRefcnt:       map[string]int{},
-		spamCh:         make(chan IPAdvertisement, 1<<16),
+		spamCh:         make(chan IPAdvertisement, n),
 	}
 }
 
